@@ -4,7 +4,7 @@
    A word is denoted by a 2x2 matrix over Z[omega] with a power-of-sqrt2 denominator exponent (the
    repo's DyadicMatrix, without normalisation): `DM a b c d k` stands for [[a,b],[c,d]] / sqrt2^k.
    The number rings come from Disc/RingsModel.v (C16).  No proofs in this file. *)
-From Coq Require Import List ZArith Bool QArith String Ascii.
+From Coq Require Import List ZArith Bool QArith.
 From PLV Require Import Disc.RingsModel.
 Import ListNotations.
 Open Scope Z_scope.
@@ -116,39 +116,64 @@ Definition dist_ok (m : dm) (enc : list (Q * Q)) (eps2 : Q) : bool :=
   else true.
 Close Scope Q_scope.
 
-(* ------------------------------------------------------------------ words as strings *)
-(* one character per operator: H S T X Y Z, s = Adjoint(S), t = Adjoint(T), I = Identity,
-   P = GlobalPhase(arbitrary), 0..7 = global phase omega^j, anything else = outside the alphabet *)
-Definition gate_of_ascii (c : ascii) : gate :=
-  match c with
-  | "H"%char => GH | "S"%char => GS | "T"%char => GT | "X"%char => GX | "Y"%char => GY | "Z"%char => GZ
-  | "s"%char => GSd | "t"%char => GTd | "I"%char => GI | "P"%char => GPh
-  | "0"%char => GW 0 | "1"%char => GW 1 | "2"%char => GW 2 | "3"%char => GW 3
-  | "4"%char => GW 4 | "5"%char => GW 5 | "6"%char => GW 6 | "7"%char => GW 7
-  | _ => GOther
+(* ------------------------------------------------------------------ words as numbers *)
+(* A word is transmitted as a hexadecimal number: one nibble per operator, first operator in the
+   least significant nibble, a sentinel nibble 1 on top (a list of such numbers for long words):
+   1=H 2=S 3=T 4=X 5=Y 6=Z 7=Adjoint(S) 8=Adjoint(T) 9=Identity a=GlobalPhase, anything else =
+   outside the alphabet.  Decoding is structural on the binary representation (linear time). *)
+Fixpoint parse_pos (p : positive) : list gate :=
+  match p with
+  | xH => []
+  | xO (xO (xO (xO r))) => GOther :: parse_pos r
+  | xI (xO (xO (xO r))) => GH :: parse_pos r
+  | xO (xI (xO (xO r))) => GS :: parse_pos r
+  | xI (xI (xO (xO r))) => GT :: parse_pos r
+  | xO (xO (xI (xO r))) => GX :: parse_pos r
+  | xI (xO (xI (xO r))) => GY :: parse_pos r
+  | xO (xI (xI (xO r))) => GZ :: parse_pos r
+  | xI (xI (xI (xO r))) => GSd :: parse_pos r
+  | xO (xO (xO (xI r))) => GTd :: parse_pos r
+  | xI (xO (xO (xI r))) => GI :: parse_pos r
+  | xO (xI (xO (xI r))) => GPh :: parse_pos r
+  | xI (xI (xO (xI r))) => GOther :: parse_pos r
+  | xO (xO (xI (xI r))) => GOther :: parse_pos r
+  | xI (xO (xI (xI r))) => GOther :: parse_pos r
+  | xO (xI (xI (xI r))) => GOther :: parse_pos r
+  | xI (xI (xI (xI r))) => GOther :: parse_pos r
+  | _ => [GOther]
   end.
-Fixpoint parse (s : string) : list gate :=
-  match s with EmptyString => [] | String c r => gate_of_ascii c :: parse r end.
+Definition parse_chunk (n : Z) : list gate := match n with Zpos p => parse_pos p | _ => [GOther] end.
+(* long words are cut into chunks (consecutive pieces of the circuit) to keep the literals small *)
+Definition parse (l : list Z) : list gate := flat_map parse_chunk l.
 
 (* ------------------------------------------------------------------ correspondence *)
 (* a case: the word returned by the implementation, enclosures of the 16 target numbers, eps^2
-   (exact square of the float) and eps^2 plus the float-resolution allowance *)
-Definition ct_case : Type := (string * list (Q * Q) * Q * Q)%type.
-Definition ck_alphabet (c : ct_case) : bool := let '(w, _, _, _) := c in gates_in_set (parse w).
-Definition ck_unitary (c : ct_case) : bool := let '(w, _, _, _) := c in dm_unitaryb (word_denote (parse w)).
-Definition ck_encl (c : ct_case) : bool := let '(_, enc, _, _) := c in encl_ok enc && (List.length enc =? 16)%nat.
-Definition ck_dist_strict (c : ct_case) : bool :=
-  let '(w, enc, e2, _) := c in dist_ok (word_denote (parse w)) enc e2.
-Definition ck_dist (c : ct_case) : bool :=
-  let '(w, enc, _, e2a) := c in dist_ok (word_denote (parse w)) enc e2a.
-Definition ct_check_case (c : ct_case) : bool := ck_alphabet c && ck_unitary c && ck_encl c && ck_dist c.
-(* exact-stage tie for rs_decomposition: the word denotes, up to a global phase, the exact
-   DyadicMatrix the implementation handed to _ma_normal_form, and that matrix is unitary *)
-Definition ck_exact_stage (c : string * (list Z * Z)) : bool :=
-  let '(w, (l, k)) := c in
-  match l with
-  | [a1; a2; a3; a4; b1; b2; b3; b4; c1; c2; c3; c4; d1; d2; d3; d4] =>
-      let m := DM (ZO a1 a2 a3 a4) (ZO b1 b2 b3 b4) (ZO c1 c2 c3 c4) (ZO d1 d2 d3 d4) k in
-      dm_unitaryb m && dm_proportional (word_denote (parse w)) m
-  | _ => false
+   (exact square of the float), eps^2 plus the float-resolution allowance, and (rs only) the exact
+   DyadicMatrix the implementation handed to _ma_normal_form (16 coefficients and k) *)
+Definition ct_case : Type := (list Z * list (Q * Q) * Q * Q * option (list Z * Z))%type.
+Definition dm_transpose (m : dm) : dm := DM (ma m) (mc m) (mb m) (md m) (mk m).
+(* exact-stage tie for rs_decomposition: _ma_normal_form lists the factors of the exact matrix
+   from left to right and the list is returned as the circuit, so the circuit's matrix is the
+   reversed product; all generators except Y are symmetric and Y^T = -Y, so it is the transpose
+   up to a sign: the word must denote, up to a global phase, the transpose of that matrix (an
+   equally good approximation of a diagonal target), and the matrix must be exactly unitary *)
+Definition stage_ok (m : dm) (st : option (list Z * Z)) : bool :=
+  match st with
+  | None => true
+  | Some ([a1; a2; a3; a4; b1; b2; b3; b4; c1; c2; c3; c4; d1; d2; d3; d4], k) =>
+      let e := DM (ZO a1 a2 a3 a4) (ZO b1 b2 b3 b4) (ZO c1 c2 c3 c4) (ZO d1 d2 d3 d4) k in
+      dm_unitaryb e && dm_proportional m (dm_transpose e)
+  | Some _ => false
   end.
+Definition bit (b : bool) (v : Z) : Z := if b then 0 else v.
+(* 0 = everything holds; otherwise the sum of: 1 alphabet, 2 exact unitarity, 4 malformed
+   enclosures, 8 distance (with allowance), 16 distance (strict eps), 32 exact stage *)
+Definition ct_code (c : ct_case) : Z :=
+  let '(n, enc, e2, e2a, st) := c in
+  let w := parse n in
+  let m := word_denote w in
+  bit (gates_in_set w) 1 + bit (dm_unitaryb m) 2 + bit (encl_ok enc && (List.length enc =? 16)%nat) 4
+  + bit (dist_ok m enc e2a) 8 + bit (dist_ok m enc e2) 16 + bit (stage_ok m st) 32.
+Definition ct_check_case (c : ct_case) : bool := ct_code c =? 0.
+(* the same with the strict distance failure ignored: the documented bound up to float64 resolution *)
+Definition ct_check_allow (c : ct_case) : bool := let v := ct_code c in (v =? 0) || (v =? 16).
